@@ -122,6 +122,10 @@ def main():
             obs.install()
             if cfg.get("ins_signal"):
                 obs.arm_signal(cfg["ins_signal"])
+            if cfg.get("fs_faults"):
+                from .observe import FsFaults
+
+                FsFaults(em, obs, **cfg["fs_faults"]).install()
             kwargs = dict(cfg.get("kwargs", {}))
             obs.user_stop = {"criteria": kwargs.get("stopping_criterion", "ratio"),
                              "tolerance": kwargs.get("tolerance", 0.0),
